@@ -92,72 +92,238 @@ theorem mem_of_getElem?' {α : Type} {l : List α} {i : Nat} {a : α} (h : l[i]?
     | zero => simp at h; simp [h]
     | succ n => simp at h; exact List.mem_cons_of_mem _ (ih h)
 
+theorem mem_setExec {l : List Exec} {j : Nat} {e e' : Exec} (h : e' ∈ setExec l j e) : e' = e ∨ e' ∈ l := by
+  induction l generalizing j with
+  | nil => simp [setExec] at h
+  | cons a rest ih =>
+    cases j with
+    | zero =>
+      simp only [setExec, List.mem_cons] at h
+      rcases h with h | h
+      · exact Or.inl h
+      · exact Or.inr (List.mem_cons_of_mem _ h)
+    | succ n =>
+      simp only [setExec, List.mem_cons] at h
+      rcases h with h | h
+      · exact Or.inr (by simp [h])
+      · rcases ih h with h | h
+        · exact Or.inl h
+        · exact Or.inr (List.mem_cons_of_mem _ h)
+
+theorem getElem?_setExec {l : List Exec} {j : Nat} (e : Exec) (hj : j < l.length) : (setExec l j e)[j]? = some e := by
+  induction l generalizing j with
+  | nil => simp at hj
+  | cons a rest ih =>
+    cases j with
+    | zero => simp [setExec]
+    | succ n =>
+      simp only [setExec, List.getElem?_cons_succ]
+      exact ih (by simpa using hj)
+
+theorem countP_setExec {l : List Exec} {j : Nat} {e0 e : Exec} (h : l[j]? = some e0) (hp : isFo e = isFo e0) :
+    (setExec l j e).countP isFo = l.countP isFo := by
+  induction l generalizing j with
+  | nil => simp at h
+  | cons a rest ih =>
+    cases j with
+    | zero =>
+      simp only [List.getElem?_cons_zero, Option.some.injEq] at h
+      subst h
+      simp [setExec, List.countP_cons, hp]
+    | succ n =>
+      simp only [List.getElem?_cons_succ] at h
+      simp [setExec, List.countP_cons, ih h]
+
 theorem mem_eraseIdx' {α : Type} {l : List α} {i : Nat} {a : α} (h : a ∈ l.eraseIdx i) : a ∈ l :=
   (List.eraseIdx_sublist l i).subset h
 
 /-! ## the run invariant -/
 
-structure Inv (s : State) : Prop where
+structure Core (s : State) : Prop where
   gT : ∀ t ∈ s.timers, t.gen ≤ s.gen
+  H  : s.healthy = false → ∃ a, s.downSince = some a ∧ a ≤ s.now
   K  : s.state = .pending → s.healthy = false ∧ ∃ a, s.downSince = some a ∧
          ∀ t ∈ s.timers, t.kind = .failover → t.gen = s.gen → a + s.cfg.delay ≤ t.deadline
   R  : s.state = .pending ∨ s.state = .inProgress → s.role = .standby
+  A  : s.state = .complete ∨ s.state = .failbackPending → s.role = .active
   E1 : s.state = .inProgress → s.execs.countP isFo = 1
   E0 : s.state ≠ .inProgress → s.execs.countP isFo = 0
   F  : ∀ e ∈ s.execs, e.kind = .failover → e.forced = false →
          ∃ a, e.downSinceAtFire = some a ∧ a + s.cfg.delay ≤ e.firedAt
+  FB : ∀ e ∈ s.execs, e.kind = .failback → e.oldRole = .active
   L  : ∀ p ∈ s.autoLog, ∃ a, p.2 = some a ∧ a + s.cfg.delay ≤ p.1
   C  : s.completedEvents = s.promotions ∧ s.completed = s.promotions
 
-theorem inv_init (c : Cfg) : Inv (init c) := by
-  constructor <;> simp [init]
+/-- no dual active: complete next to a healthy partner only after an operator-forced promotion -/
+def DProp (s : State) : Prop :=
+  s.state = .complete → s.healthy = true → s.cfg.failbackEnabled = true → s.forcedHold = true
+/-- no stranded standby: a normal standby has a healthy partner -/
+def NProp (s : State) : Prop := s.role = .standby → s.state = .normal → s.healthy = true
 
-theorem inv_handleDown {s : State} (h : Inv s) (hh : s.healthy = true) :
-    Inv (handleDown { s with healthy := false, downSince := some s.now }) := by
-  unfold handleDown
+structure Inv (s : State) : Prop extends Core s where
+  D : DProp s
+  N : NProp s
+
+theorem inv_init (c : Cfg) : Inv (init c) := by
+  refine ⟨?_, ?_, ?_⟩
+  · constructor <;> simp [init]
+  · intro hx; simp [init] at hx
+  · intro _ _; rfl
+
+/-- arming the failover timer (scheduleFailoverLocked) when the partner is down -/
+theorem inv_scheduleFailover {s : State} (h : Core s) (hD : DProp s) (hh : s.healthy = false) :
+    Inv (scheduleFailover s) := by
+  unfold scheduleFailover
   split
   · rename_i hc
-    simp only at hc
-    constructor
-    · intro t ht
-      simp only [List.mem_append, List.mem_singleton] at ht
-      rcases ht with ht | ht
-      · obtain ⟨t0, h0, _, hg, _⟩ := mem_stopAll ht
-        have := h.gT t0 h0
-        simp only; omega
-      · subst ht; simp
-    · intro _
-      refine ⟨rfl, s.now, rfl, ?_⟩
-      intro t ht _ hg
-      simp only [List.mem_append, List.mem_singleton] at ht
-      rcases ht with ht | ht
-      · obtain ⟨t0, h0, _, hg0, _⟩ := mem_stopAll ht
-        have := h.gT t0 h0
-        simp only at hg
-        omega
-      · subst ht; simp
-    · intro _; exact hc.1
+    obtain ⟨a, ha, hle⟩ := h.H hh
+    refine ⟨?_, ?_, ?_⟩
+    · constructor
+      · intro t ht
+        simp only [List.mem_append, List.mem_singleton] at ht
+        rcases ht with ht | ht
+        · obtain ⟨t0, h0, _, hg, _⟩ := mem_stopAll ht
+          have := h.gT t0 h0
+          simp only; omega
+        · subst ht; simp
+      · exact h.H
+      · intro _
+        refine ⟨hh, a, ha, ?_⟩
+        intro t ht _ hg
+        simp only [List.mem_append, List.mem_singleton] at ht
+        rcases ht with ht | ht
+        · obtain ⟨t0, h0, _, hg0, _⟩ := mem_stopAll ht
+          have := h.gT t0 h0
+          simp only at hg
+          omega
+        · subst ht; simp only; omega
+      · intro _; exact hc.1
+      · intro hx; simp at hx
+      · intro hx; simp at hx
+      · intro _; exact h.E0 (by rw [hc.2]; simp)
+      · exact h.F
+      · exact h.FB
+      · exact h.L
+      · exact h.C
     · intro hx; simp at hx
-    · intro _; exact h.E0 (by rw [hc.2]; simp)
-    · exact h.F
-    · exact h.L
-    · exact h.C
+    · intro _ hx; simp at hx
+  · rename_i hc
+    refine ⟨h, hD, ?_⟩
+    intro hr hs
+    exact absurd ⟨hr, hs⟩ hc
+
+/-- cancelFailoverLocked with a healthy partner; `h` is about the state with the failover execution (if any)
+    already taken out and the state set to normal -/
+theorem inv_cancelFailover {s : State} (h : Core { s with state := .normal }) (hh : s.healthy = true) :
+    Inv (cancelFailover s).1 := by
+  unfold cancelFailover
+  refine ⟨?_, ?_, ?_⟩
   · constructor
-    · exact h.gT
-    · intro hp
-      have := (h.K hp).1
-      rw [hh] at this; simp at this
-    · exact h.R
-    · exact h.E1
-    · exact h.E0
+    · intro t ht
+      obtain ⟨t0, h0, _, hg, _⟩ := mem_stopAll ht
+      have := h.gT t0 h0
+      simp only at this ⊢; omega
+    · exact h.H
+    · intro hx; simp at hx
+    · intro hx; simp at hx
+    · intro hx; simp at hx
+    · intro hx; simp at hx
+    · intro _; exact h.E0 (by simp)
     · exact h.F
+    · exact h.FB
     · exact h.L
     · exact h.C
+  · intro hx; simp at hx
+  · intro _ _; exact hh
+
+/-- arming the failback timer (scheduleFailbackLocked) -/
+theorem inv_scheduleFailback {s : State} (h : Core s) (hN : NProp s) : Inv (scheduleFailback s) := by
+  unfold scheduleFailback
+  split
+  · rename_i hc
+    refine ⟨?_, ?_, ?_⟩
+    · constructor
+      · intro t ht
+        simp only [List.mem_append, List.mem_singleton] at ht
+        rcases ht with ht | ht
+        · obtain ⟨t0, h0, _, hg, _⟩ := mem_stopAll ht
+          have := h.gT t0 h0
+          simp only; omega
+        · subst ht; simp
+      · exact h.H
+      · intro hx; simp at hx
+      · intro hx; simp at hx
+      · intro _; exact h.A (Or.inl hc.1)
+      · intro hx; simp at hx
+      · intro _; exact h.E0 (by rw [hc.1]; simp)
+      · exact h.F
+      · exact h.FB
+      · exact h.L
+      · exact h.C
+    · intro hx; simp at hx
+    · intro _ hx; simp at hx
+  · rename_i hc
+    refine ⟨h, ?_, hN⟩
+    intro h1 _ h3
+    exact absurd ⟨h1, h3⟩ hc
+
+/-- replacing the executions by a list with the same failover count whose members are old ones or copies of
+    old ones (same kind, forced flag, history and old role) -/
+theorem Core.withExecs {s : State} (h : Core s) (ex : List Exec)
+    (hc : ex.countP isFo = s.execs.countP isFo)
+    (hm : ∀ e ∈ ex, ∃ e0 ∈ s.execs, e.kind = e0.kind ∧ e.forced = e0.forced ∧
+        e.downSinceAtFire = e0.downSinceAtFire ∧ e.firedAt = e0.firedAt ∧ e.oldRole = e0.oldRole) :
+    Core { s with execs := ex } := by
+  constructor
+  · exact h.gT
+  · exact h.H
+  · exact h.K
+  · exact h.R
+  · exact h.A
+  · intro hx; simp only; rw [hc]; exact h.E1 hx
+  · intro hx; simp only; rw [hc]; exact h.E0 hx
+  · intro e he hk hf
+    obtain ⟨e0, h0, hk0, hf0, hd0, ha0, _⟩ := hm e he
+    have := h.F e0 h0 (by rw [← hk0]; exact hk) (by rw [← hf0]; exact hf)
+    rw [hd0, ha0]; exact this
+  · intro e he hk
+    obtain ⟨e0, h0, hk0, _, _, _, ho0⟩ := hm e he
+    rw [ho0]; exact h.FB e0 h0 (by rw [← hk0]; exact hk)
+  · exact h.L
+  · exact h.C
+
+theorem Inv.withExecs {s : State} (h : Inv s) (ex : List Exec)
+    (hc : ex.countP isFo = s.execs.countP isFo)
+    (hm : ∀ e ∈ ex, ∃ e0 ∈ s.execs, e.kind = e0.kind ∧ e.forced = e0.forced ∧
+        e.downSinceAtFire = e0.downSinceAtFire ∧ e.firedAt = e0.firedAt ∧ e.oldRole = e0.oldRole) :
+    Inv { s with execs := ex } :=
+  ⟨h.toCore.withExecs ex hc hm, h.D, h.N⟩
+
+theorem erase_members {l : List Exec} {j : Nat} :
+    ∀ e ∈ l.eraseIdx j, ∃ e0 ∈ l, e.kind = e0.kind ∧ e.forced = e0.forced ∧
+        e.downSinceAtFire = e0.downSinceAtFire ∧ e.firedAt = e0.firedAt ∧ e.oldRole = e0.oldRole :=
+  fun e he => ⟨e, mem_eraseIdx' he, rfl, rfl, rfl, rfl, rfl⟩
 
 theorem inv_down {s : State} (h : Inv s) : Inv (down s).1 := by
   unfold down
   split
-  · rename_i hh; exact inv_handleDown h hh
+  · rename_i hh
+    apply inv_scheduleFailover _ _ rfl
+    · constructor
+      · exact h.gT
+      · intro _; exact ⟨s.now, rfl, Nat.le_refl _⟩
+      · intro hp
+        have := (h.K hp).1
+        rw [hh] at this; simp at this
+      · exact h.R
+      · exact h.A
+      · exact h.E1
+      · exact h.E0
+      · exact h.F
+      · exact h.FB
+      · exact h.L
+      · exact h.C
+    · intro _ hx; simp at hx
   · exact h
 
 theorem inv_up {s : State} (h : Inv s) : Inv (up s).1 := by
@@ -169,74 +335,74 @@ theorem inv_up {s : State} (h : Inv s) : Inv (up s).1 := by
     split
     · -- pending: cancelled
       rename_i hp
+      apply inv_cancelFailover _ rfl
       constructor
-      · intro t ht
-        obtain ⟨t0, h0, _, hg, _⟩ := mem_stopAll ht
-        have := h.gT t0 h0
-        simp only; omega
+      · exact h.gT
+      · intro hx; simp at hx
+      · intro hx; simp at hx
       · intro hx; simp at hx
       · intro hx; simp at hx
       · intro hx; simp at hx
       · intro _; exact h.E0 (by rw [hp]; simp)
       · exact h.F
+      · exact h.FB
       · exact h.L
       · exact h.C
-    · split
-      · rename_i hnp hc
-        constructor
-        · intro t ht
-          simp only [List.mem_append, List.mem_singleton] at ht
-          rcases ht with ht | ht
-          · obtain ⟨t0, h0, _, hg, _⟩ := mem_stopAll ht
-            have := h.gT t0 h0
-            simp only; omega
-          · subst ht; simp
-        · intro hx; simp at hx
-        · intro hx; simp at hx
-        · intro hx; simp at hx
-        · intro _; exact h.E0 (by rw [hc.1]; simp)
-        · exact h.F
-        · exact h.L
-        · exact h.C
-      · rename_i hnp _
-        constructor
+    · rename_i hnp
+      apply inv_scheduleFailback
+      · constructor
         · exact h.gT
+        · intro hx; simp at hx
         · intro hp; exact absurd hp hnp
         · exact h.R
+        · exact h.A
         · exact h.E1
         · exact h.E0
         · exact h.F
+        · exact h.FB
         · exact h.L
         · exact h.C
+      · intro _ _; rfl
 
 theorem inv_tick {s : State} (h : Inv s) : Inv (tick s).1 := by
   unfold tick
   split
   · rename_i hc
-    constructor
-    · intro t ht
-      obtain ⟨t0, h0, _, hg, _⟩ := mem_stopAll ht
-      have := h.gT t0 h0
-      simp only; omega
-    · intro hx; simp at hx
-    · intro hx; simp at hx
-    · intro hx; simp at hx
-    · intro _; exact h.E0 (by rw [hc.1]; simp)
-    · exact h.F
-    · exact h.L
-    · exact h.C
+    refine ⟨?_, ?_, ?_⟩
+    · constructor
+      · intro t ht
+        obtain ⟨t0, h0, _, hg, _⟩ := mem_stopAll ht
+        have := h.gT t0 h0
+        simp only; omega
+      · exact h.H
+      · intro hx; simp at hx
+      · intro hx; simp at hx
+      · intro _; exact h.A (Or.inr hc.1)
+      · intro hx; simp at hx
+      · intro _; exact h.E0 (by rw [hc.1]; simp)
+      · exact h.F
+      · exact h.FB
+      · exact h.L
+      · exact h.C
+    · intro _ hx; simp only at hx; rw [hc.2] at hx; simp at hx
+    · intro _ hx; simp at hx
   · exact h
 
-theorem inv_advance {s : State} (h : Inv s) (dt : Nat) : Inv { s with now := s.now + dt } :=
-  ⟨h.gT, h.K, h.R, h.E1, h.E0, h.F, h.L, h.C⟩
+theorem inv_advance {s : State} (h : Inv s) (dt : Nat) : Inv { s with now := s.now + dt } := by
+  refine ⟨⟨h.gT, ?_, h.K, h.R, h.A, h.E1, h.E0, h.F, h.FB, h.L, h.C⟩, h.D, h.N⟩
+  intro hh
+  obtain ⟨a, ha, hle⟩ := h.H hh
+  exact ⟨a, ha, by simp only; omega⟩
 
 /-- marking an instance delivered touches nothing the invariant speaks about -/
 theorem inv_mark {s : State} (h : Inv s) (i : Nat) : Inv { s with timers := markDelivered s.timers i } := by
+  refine ⟨?_, h.D, h.N⟩
   constructor
   · intro t ht
     obtain ⟨t0, h0, _, hg, _⟩ := mem_markDelivered ht
     have := h.gT t0 h0
     simp only; omega
+  · exact h.H
   · intro hp
     obtain ⟨hh, a, ha, hall⟩ := h.K hp
     refine ⟨hh, a, ha, ?_⟩
@@ -245,9 +411,11 @@ theorem inv_mark {s : State} (h : Inv s) (i : Nat) : Inv { s with timers := mark
     have := hall t0 h0 (by rw [← hk0]; exact hk) (by rw [← hg0]; exact hg)
     rw [hd0]; exact this
   · exact h.R
+  · exact h.A
   · exact h.E1
   · exact h.E0
   · exact h.F
+  · exact h.FB
   · exact h.L
   · exact h.C
 
@@ -271,55 +439,163 @@ theorem inv_fire {s : State} (h : Inv s) (i : Nat) : Inv (fire s i).1 := by
         · rename_i hc
           obtain ⟨hh, a, ha, hall⟩ := h.K hc.1
           have hdl := hall t htm hk hc.2
-          constructor
-          · exact hm.gT
-          · intro hx; simp at hx
-          · intro _; exact h.R (Or.inl hc.1)
-          · intro _
-            have := h.E0 (by rw [hc.1]; simp)
-            simp [List.countP_append, List.countP_singleton, this, isFo]
-          · intro hx; simp at hx
-          · intro e he hke hf
-            simp only [List.mem_append, List.mem_singleton] at he
-            rcases he with he | he
-            · exact h.F e he hke hf
-            · subst he
-              exact ⟨a, ha, by simp only; omega⟩
-          · exact h.L
-          · exact h.C
+          split
+          · -- partner healthy although pending: excluded by K
+            rename_i hx
+            rw [hh] at hx; simp at hx
+          · refine ⟨?_, ?_, ?_⟩
+            · constructor
+              · exact hm.gT
+              · exact h.H
+              · intro hx; simp at hx
+              · intro _; exact h.R (Or.inl hc.1)
+              · intro hx; simp at hx
+              · intro _
+                have := h.E0 (by rw [hc.1]; simp)
+                simp [List.countP_append, this, isFo]
+              · intro hx; simp at hx
+              · intro e he hke hf
+                simp only [List.mem_append, List.mem_singleton] at he
+                rcases he with he | he
+                · exact h.F e he hke hf
+                · subst he
+                  exact ⟨a, ha, by simp only; omega⟩
+              · intro e he hke
+                simp only [List.mem_append, List.mem_singleton] at he
+                rcases he with he | he
+                · exact h.FB e he hke
+                · subst he; simp at hke
+              · exact h.L
+              · exact h.C
+            · intro hx; simp at hx
+            · intro _ hx; simp at hx
         · exact hm
       · -- failback timer
         split
         · rename_i hc
+          have hact := h.A (Or.inr hc.1)
           split
-          · constructor
+          · rename_i hu
+            refine ⟨?_, ?_, ?_⟩
+            · constructor
+              · exact hm.gT
+              · exact h.H
+              · intro hx; simp at hx
+              · intro hx; simp at hx
+              · intro _; exact hact
+              · intro hx; simp at hx
+              · intro _; exact h.E0 (by rw [hc.1]; simp)
+              · exact h.F
+              · exact h.FB
+              · exact h.L
+              · exact h.C
+            · intro _ hx; simp only at hx hu; rw [hu] at hx; simp at hx
+            · intro _ hx; simp at hx
+          · refine ⟨?_, hm.D, hm.N⟩
+            constructor
             · exact hm.gT
-            · intro hx; simp at hx
-            · intro hx; simp at hx
-            · intro hx; simp at hx
-            · intro _; exact h.E0 (by rw [hc.1]; simp)
-            · exact h.F
-            · exact h.L
-            · exact h.C
-          · constructor
-            · exact hm.gT
-            · intro hx; simp only at hx; rw [hc.1] at hx; simp at hx
-            · intro hx; simp only at hx; rw [hc.1] at hx; simp at hx
+            · exact h.H
+            · exact hm.K
+            · exact h.R
+            · exact h.A
             · intro hx; simp only at hx; rw [hc.1] at hx; simp at hx
             · intro _
               have := h.E0 (by rw [hc.1]; simp)
-              simp [List.countP_append, List.countP_singleton, this, isFo]
+              simp [List.countP_append, this, isFo]
             · intro e he hke hf
               simp only [List.mem_append, List.mem_singleton] at he
               rcases he with he | he
               · exact h.F e he hke hf
               · subst he; simp at hke
+            · intro e he hke
+              simp only [List.mem_append, List.mem_singleton] at he
+              rcases he with he | he
+              · exact h.FB e he hke
+              · subst he; exact hact
             · exact h.L
             · exact h.C
         · exact hm
 
-theorem inv_wake {s : State} (h : Inv s) (j : Nat) (ok : Bool) : Inv (wake s j ok).1 := by
-  unfold wake
+theorem setExec_members {l : List Exec} {j : Nat} {e0 e' : Exec} (h0 : l[j]? = some e0)
+    (hk : e'.kind = e0.kind) (hf : e'.forced = e0.forced) (hd : e'.downSinceAtFire = e0.downSinceAtFire)
+    (ha : e'.firedAt = e0.firedAt) (ho : e'.oldRole = e0.oldRole) :
+    ∀ e ∈ setExec l j e', ∃ x ∈ l, e.kind = x.kind ∧ e.forced = x.forced ∧
+        e.downSinceAtFire = x.downSinceAtFire ∧ e.firedAt = x.firedAt ∧ e.oldRole = x.oldRole := by
+  intro e he
+  rcases mem_setExec he with he | he
+  · subst he; exact ⟨e0, mem_of_getElem?' h0, hk, hf, hd, ha, ho⟩
+  · exact ⟨e, he, rfl, rfl, rfl, rfl, rfl⟩
+
+theorem inv_callCheck {s : State} (h : Inv s) (j : Nat) (ok : Bool) (dur : Nat) : Inv (callCheck s j ok dur).1 := by
+  unfold callCheck
+  split
+  · exact h
+  · rename_i e he
+    split
+    · exact h
+    · have hem : e ∈ s.execs := mem_of_getElem?' he
+      split
+      · -- failover execution
+        rename_i hk
+        have hfo : isFo e = true := by simp [isFo, hk]
+        split
+        · -- the partner recovered during the grace period: cancelled
+          rename_i hc
+          have hcnt := countP_eraseIdx_pos he hfo
+          have hip : s.state = .inProgress := by
+            apply Classical.byContradiction
+            intro hn
+            have := h.E0 hn
+            omega
+          have h1 := h.E1 hip
+          refine inv_cancelFailover (s := { s with execs := s.execs.eraseIdx j }) ?_ hc.2
+          constructor
+          · exact h.gT
+          · exact h.H
+          · intro hx; simp at hx
+          · intro hx; simp at hx
+          · intro hx; simp at hx
+          · intro hx; simp at hx
+          · intro _; simp only; omega
+          · intro e' he'; exact h.F e' (mem_eraseIdx' he')
+          · intro e' he'; exact h.FB e' (mem_eraseIdx' he')
+          · exact h.L
+          · exact h.C
+        · apply h.withExecs
+          · exact countP_setExec he (by simp [isFo])
+          · exact setExec_members he rfl rfl rfl rfl rfl
+      · -- failback execution
+        rename_i hk
+        have hfo : isFo e = false := by simp [isFo, hk]
+        have hcnt := countP_eraseIdx_neg he hfo
+        split
+        · exact h.withExecs _ hcnt erase_members
+        · rename_i hv
+          simp only [ne_eq, not_or, Decidable.not_not] at hv
+          split
+          · rename_i hu
+            have base := h.withExecs _ hcnt (erase_members (j := j))
+            refine ⟨?_, ?_, ?_⟩
+            · constructor
+              · exact base.gT
+              · exact base.H
+              · intro hx; simp at hx
+              · intro hx; simp at hx
+              · intro _; exact h.A (Or.inr hv.1)
+              · intro hx; simp at hx
+              · intro _; exact base.E0 (by simp only; rw [hv.1]; simp)
+              · exact base.F
+              · exact base.FB
+              · exact base.L
+              · exact base.C
+            · intro _ hx; simp only at hx; rw [hu] at hx; simp at hx
+            · intro _ hx; simp at hx
+          · apply h.withExecs
+            · exact countP_setExec he (by simp [isFo])
+            · exact setExec_members he rfl rfl rfl rfl rfl
+
+theorem inv_commit {s : State} (h : Inv s) (j : Nat) : Inv (commit s j).1 := by
+  unfold commit
   split
   · exact h
   · rename_i e he
@@ -341,78 +617,128 @@ theorem inv_wake {s : State} (h : Inv s) (j : Nat) (ok : Bool) : Inv (wake s j o
         have h0 : (s.execs.eraseIdx j).countP isFo = 0 := by omega
         have hrole := h.R (Or.inr hip)
         split
-        · constructor
-          · exact h.gT
-          · intro hx; simp at hx
-          · intro hx; simp at hx
-          · intro hx; simp at hx
-          · intro _; exact h0
-          · intro e' he' ; exact h.F e' (mem_eraseIdx' he')
-          · intro p hp
-            simp only at hp
-            split at hp
-            · exact h.L p hp
-            · rename_i hf
-              simp only [List.mem_append, List.mem_singleton] at hp
-              rcases hp with hp | hp
+        · -- the callback succeeded: commit
+          have core : Core { s with execs := s.execs.eraseIdx j, role := .active, state := .complete, completed := s.completed + 1, promotions := s.promotions + 1, completedEvents := s.completedEvents + 1, autoLog := if e.forced then s.autoLog else s.autoLog ++ [(e.firedAt, e.downSinceAtFire)], forcedHold := e.forced } := by
+            constructor
+            · exact h.gT
+            · exact h.H
+            · intro hx; simp at hx
+            · intro hx; simp at hx
+            · intro _; rfl
+            · intro hx; simp at hx
+            · intro _; exact h0
+            · intro e' he'; exact h.F e' (mem_eraseIdx' he')
+            · intro e' he'; exact h.FB e' (mem_eraseIdx' he')
+            · intro p hp
+              simp only at hp
+              split at hp
               · exact h.L p hp
-              · subst hp
-                exact h.F e hem hk (by simpa using hf)
-          · have := h.C
-            simp only
-            omega
-        · constructor
-          · exact h.gT
-          · intro hx; simp at hx
-          · intro hx; simp at hx
-          · intro hx; simp at hx
-          · intro _; exact h0
-          · intro e' he' ; exact h.F e' (mem_eraseIdx' he')
-          · exact h.L
-          · exact h.C
+              · rename_i hf
+                simp only [List.mem_append, List.mem_singleton] at hp
+                rcases hp with hp | hp
+                · exact h.L p hp
+                · subst hp
+                  exact h.F e hem hk (by simpa using hf)
+            · have := h.C
+              simp only
+              omega
+          split
+          · exact inv_scheduleFailback core (fun hx => by simp at hx)
+          · rename_i hns
+            refine ⟨core, ?_, ?_⟩
+            · intro _ hh _
+              simp only at hh ⊢
+              cases hf : e.forced with
+              | true => rfl
+              | false => exact absurd ⟨hf, hh⟩ hns
+            · intro hx; simp at hx
+        · -- the callback failed
+          have core : Core { s with execs := s.execs.eraseIdx j, state := .normal } := by
+            constructor
+            · exact h.gT
+            · exact h.H
+            · intro hx; simp at hx
+            · intro hx; simp at hx
+            · intro hx; simp at hx
+            · intro hx; simp at hx
+            · intro _; exact h0
+            · intro e' he'; exact h.F e' (mem_eraseIdx' he')
+            · intro e' he'; exact h.FB e' (mem_eraseIdx' he')
+            · exact h.L
+            · exact h.C
+          split
+          · rename_i hu
+            exact inv_scheduleFailover core (fun hx => by simp at hx) hu
+          · rename_i hu
+            refine ⟨core, fun hx => by simp at hx, ?_⟩
+            intro _ _
+            simp only at hu ⊢
+            cases hh : s.healthy with
+            | true => rfl
+            | false => exact absurd hh hu
       · -- failback execution
         rename_i hk
         have hfo : isFo e = false := by simp [isFo, hk]
         have hcnt := countP_eraseIdx_neg he hfo
-        have base : Inv { s with execs := s.execs.eraseIdx j } :=
-          ⟨h.gT, h.K, h.R, fun hx => by rw [hcnt]; exact h.E1 hx, fun hx => by rw [hcnt]; exact h.E0 hx,
-           fun e' he' => h.F e' (mem_eraseIdx' he'), h.L, h.C⟩
+        have base := h.withExecs _ hcnt (erase_members (j := j))
+        have hold := h.FB e hem hk
         split
-        · exact base
-        · rename_i hv
-          simp only [ne_eq, not_or, Decidable.not_not] at hv
-          have hst : s.state = .failbackPending := hv.1
-          have hE0 : (s.execs.eraseIdx j).countP isFo = 0 := by
-            rw [hcnt]; exact h.E0 (by rw [hst]; simp)
-          split
-          · constructor
-            · exact h.gT
-            · intro hx; simp at hx
-            · intro hx; simp at hx
-            · intro hx; simp at hx
-            · intro _; exact hE0
-            · exact base.F
-            · exact h.L
-            · exact h.C
-          · split
-            · constructor
+        · split
+          · exact base
+          · -- commit of the failback
+            rename_i hr
+            simp only [ne_eq, Decidable.not_not] at hr
+            have hact : s.role = .active := by rw [← hold]; exact hr
+            have hnip : s.state ≠ .inProgress := by
+              intro hx
+              have := h.R (Or.inr hx)
+              rw [hact] at this; simp at this
+            have core : Core { s with execs := s.execs.eraseIdx j, role := s.cfg.original, state := .normal, failbacks := s.failbacks + 1 } := by
+              constructor
               · exact h.gT
+              · exact h.H
               · intro hx; simp at hx
               · intro hx; simp at hx
               · intro hx; simp at hx
-              · intro _; exact hE0
+              · intro hx; simp at hx
+              · intro _; exact base.E0 hnip
               · exact base.F
+              · exact base.FB
               · exact h.L
               · exact h.C
-            · constructor
+            split
+            · rename_i hu
+              exact inv_scheduleFailover core (fun hx => by simp at hx) hu
+            · rename_i hu
+              refine ⟨core, fun hx => by simp at hx, ?_⟩
+              intro _ _
+              simp only at hu ⊢
+              cases hh : s.healthy with
+              | true => rfl
+              | false => exact absurd hh hu
+        · split
+          · rename_i hv
+            have core : Core { s with execs := s.execs.eraseIdx j, state := .complete } := by
+              constructor
               · exact h.gT
+              · exact h.H
               · intro hx; simp at hx
               · intro hx; simp at hx
+              · intro _; exact h.A (Or.inr hv.1)
               · intro hx; simp at hx
-              · intro _; exact hE0
+              · intro _; exact base.E0 (by simp only; rw [hv.1]; simp)
               · exact base.F
+              · exact base.FB
               · exact h.L
               · exact h.C
+            split
+            · exact inv_scheduleFailback core (fun _ hx => by simp at hx)
+            · rename_i hu
+              refine ⟨core, ?_, fun _ hx => by simp at hx⟩
+              intro _ hh
+              simp only at hh hu
+              exact absurd hh hu
+          · exact base
 
 theorem inv_forceFailover {s : State} (h : Inv s) : Inv (forceFailover s).1 := by
   unfold forceFailover
@@ -422,25 +748,33 @@ theorem inv_forceFailover {s : State} (h : Inv s) : Inv (forceFailover s).1 := b
     split
     · exact h
     · rename_i hs
+      refine ⟨?_, fun hx => by simp at hx, fun _ hx => by simp at hx⟩
       constructor
       · intro t ht
         obtain ⟨t0, h0, _, hg, _⟩ := mem_stopAll ht
         have := h.gT t0 h0
         simp only; omega
+      · exact h.H
       · intro hx; simp at hx
       · intro _
         cases hrole : s.role with
         | standby => rfl
         | active => exact absurd hrole hr
+      · intro hx; simp at hx
       · intro _
         have := h.E0 hs
-        simp [List.countP_append, List.countP_singleton, this, isFo]
+        simp [List.countP_append, this, isFo]
       · intro hx; simp at hx
       · intro e he hke hf
         simp only [List.mem_append, List.mem_singleton] at he
         rcases he with he | he
         · exact h.F e he hke hf
         · subst he; simp at hf
+      · intro e he hke
+        simp only [List.mem_append, List.mem_singleton] at he
+        rcases he with he | he
+        · exact h.FB e he hke
+        · subst he; simp at hke
       · exact h.L
       · exact h.C
 
@@ -455,7 +789,8 @@ theorem inv_step {s : State} (h : Inv s) (op : Op) : Inv (step s op).1 := by
   | tick => exact inv_tick h
   | advance dt => exact inv_advance h dt
   | fire i => exact inv_fire h i
-  | wake j ok => exact inv_wake h j ok
+  | check j ok dur => exact inv_callCheck h j ok dur
+  | commit j => exact inv_commit h j
   | forceFailover => exact inv_forceFailover h
   | forceFailback => exact inv_forceFailback h
 
@@ -468,11 +803,12 @@ theorem inv_run {s : State} (h : Inv s) (ops : List Op) : Inv (run s ops) := by
 
 theorem step_cfg (s : State) (op : Op) : (step s op).1.cfg = s.cfg := by
   cases op <;> simp only [step]
-  · unfold down handleDown; (repeat' (first | split | (simp only; split))) <;> rfl
-  · unfold up handleUp; (repeat' (first | split | (simp only; split))) <;> rfl
+  · unfold down scheduleFailover; (repeat' (first | split | (simp only; split))) <;> rfl
+  · unfold up handleUp cancelFailover scheduleFailback; (repeat' (first | split | (simp only; split))) <;> rfl
   · unfold tick; (repeat' (first | split | (simp only; split))) <;> rfl
-  · unfold fire; (repeat' (first | split | (simp only; split))) <;> rfl
-  · unfold wake; (repeat' (first | split | (simp only; split))) <;> rfl
+  · unfold fire cancelFailover; (repeat' (first | split | (simp only; split))) <;> rfl
+  · unfold callCheck cancelFailover; (repeat' (first | split | (simp only; split))) <;> rfl
+  · unfold commit scheduleFailback scheduleFailover; (repeat' (first | split | (simp only; split))) <;> rfl
   · unfold forceFailover; (repeat' (first | split | (simp only; split))) <;> rfl
   · unfold forceFailback; (repeat' (first | split | (simp only; split))) <;> rfl
 
@@ -481,76 +817,141 @@ theorem run_cfg (s : State) (ops : List Op) : (run s ops).cfg = s.cfg := by
   | nil => rfl
   | cons op rest ih => simp only [run, List.foldl_cons] at ih ⊢; rw [ih, step_cfg]
 
+def GensLe (s s' : State) : Prop := s.gen ≤ s'.gen ∧ s.timers.map (·.gen) <+: s'.timers.map (·.gen)
+
+theorem GensLe.refl (s : State) : GensLe s s := ⟨Nat.le_refl _, List.prefix_refl _⟩
+
+theorem GensLe.trans {a b c : State} (h1 : GensLe a b) (h2 : GensLe b c) : GensLe a c :=
+  ⟨Nat.le_trans h1.1 h2.1, List.IsPrefix.trans h1.2 h2.2⟩
+
+theorem gens_scheduleFailover (s : State) : GensLe s (scheduleFailover s) := by
+  unfold scheduleFailover
+  split
+  · refine ⟨by simp only; omega, ?_⟩
+    simp only [List.map_append, gens_stopAll]
+    exact List.prefix_append _ _
+  · exact GensLe.refl s
+
+theorem gens_scheduleFailback (s : State) : GensLe s (scheduleFailback s) := by
+  unfold scheduleFailback
+  split
+  · refine ⟨by simp only; omega, ?_⟩
+    simp only [List.map_append, gens_stopAll]
+    exact List.prefix_append _ _
+  · exact GensLe.refl s
+
+theorem gens_cancelFailover (s : State) : GensLe s (cancelFailover s).1 := by
+  unfold cancelFailover
+  refine ⟨by simp only; omega, ?_⟩
+  simp only [gens_stopAll]
+  exact List.prefix_refl _
+
+/-- the fields `GensLe` looks at -/
+theorem GensLe.of_eq {s s' : State} (hg : s'.gen = s.gen) (ht : s'.timers.map (·.gen) = s.timers.map (·.gen)) :
+    GensLe s s' := ⟨by omega, by rw [ht]; exact List.prefix_refl _⟩
+
+theorem gens_fo (s s1 : State) (hg : s1.gen = s.gen) (ht : s1.timers.map (·.gen) = s.timers.map (·.gen)) :
+    GensLe s (scheduleFailover s1) := (GensLe.of_eq hg ht).trans (gens_scheduleFailover _)
+theorem gens_fb (s s1 : State) (hg : s1.gen = s.gen) (ht : s1.timers.map (·.gen) = s.timers.map (·.gen)) :
+    GensLe s (scheduleFailback s1) := (GensLe.of_eq hg ht).trans (gens_scheduleFailback _)
+theorem gens_cf (s s1 : State) (hg : s1.gen = s.gen) (ht : s1.timers.map (·.gen) = s.timers.map (·.gen)) :
+    GensLe s (cancelFailover s1).1 := (GensLe.of_eq hg ht).trans (gens_cancelFailover _)
+
 /-- a step never lowers the generation and never changes the generation of an existing timer instance -/
-theorem step_gens (s : State) (op : Op) :
-    s.gen ≤ (step s op).1.gen ∧ s.timers.map (·.gen) <+: (step s op).1.timers.map (·.gen) := by
+theorem step_gens (s : State) (op : Op) : GensLe s (step s op).1 := by
   cases op <;> simp only [step]
-  · unfold down handleDown
+  · unfold down
     split
-    · split
-      · simp only [List.map_append, gens_stopAll]
-        exact ⟨by omega, List.prefix_append _ _⟩
-      · exact ⟨Nat.le_refl _, List.prefix_refl _⟩
-    · exact ⟨Nat.le_refl _, List.prefix_refl _⟩
+    · exact gens_fo _ _ rfl rfl
+    · exact GensLe.refl s
   · unfold up handleUp
     split
-    · exact ⟨Nat.le_refl _, List.prefix_refl _⟩
+    · exact GensLe.refl s
     · simp only
       split
-      · simp only [gens_stopAll]
-        exact ⟨by omega, List.prefix_refl _⟩
-      · split
-        · simp only [List.map_append, gens_stopAll]
-          exact ⟨by omega, List.prefix_append _ _⟩
-        · exact ⟨Nat.le_refl _, List.prefix_refl _⟩
+      · exact gens_cf _ _ rfl rfl
+      · exact gens_fb _ _ rfl rfl
   · unfold tick
     split
-    · simp only [gens_stopAll]
-      exact ⟨by omega, List.prefix_refl _⟩
-    · exact ⟨Nat.le_refl _, List.prefix_refl _⟩
-  · exact ⟨Nat.le_refl _, List.prefix_refl _⟩
+    · refine ⟨by simp only; omega, ?_⟩
+      simp only [gens_stopAll]; exact List.prefix_refl _
+    · exact GensLe.refl s
+  · exact GensLe.of_eq rfl rfl
   · unfold fire
     split
-    · exact ⟨Nat.le_refl _, List.prefix_refl _⟩
+    · exact GensLe.refl s
     · split
-      · exact ⟨Nat.le_refl _, List.prefix_refl _⟩
-      · simp only
+      · exact GensLe.refl s
+      · have hm : GensLe s { s with timers := markDelivered s.timers ‹Nat› } :=
+          GensLe.of_eq rfl (gens_markDelivered _ _)
+        simp only
         split
-        · split <;> simp only [gens_markDelivered] <;> exact ⟨Nat.le_refl _, List.prefix_refl _⟩
         · split
-          · split <;> simp only [gens_markDelivered] <;> exact ⟨Nat.le_refl _, List.prefix_refl _⟩
-          · simp only [gens_markDelivered]; exact ⟨Nat.le_refl _, List.prefix_refl _⟩
-  · unfold wake
-    split
-    · exact ⟨Nat.le_refl _, List.prefix_refl _⟩
-    · split
-      · exact ⟨Nat.le_refl _, List.prefix_refl _⟩
-      · simp only
-        split
-        · split <;> exact ⟨Nat.le_refl _, List.prefix_refl _⟩
-        · split
-          · exact ⟨Nat.le_refl _, List.prefix_refl _⟩
           · split
-            · exact ⟨Nat.le_refl _, List.prefix_refl _⟩
-            · split <;> exact ⟨Nat.le_refl _, List.prefix_refl _⟩
+            · exact gens_cf _ _ rfl (gens_markDelivered _ _)
+            · exact hm.trans (GensLe.of_eq rfl rfl)
+          · exact hm
+        · split
+          · split
+            · exact hm.trans (GensLe.of_eq rfl rfl)
+            · exact hm.trans (GensLe.of_eq rfl rfl)
+          · exact hm
+  · unfold callCheck
+    split
+    · exact GensLe.refl s
+    · split
+      · exact GensLe.refl s
+      · split
+        · split
+          · exact gens_cf _ _ rfl rfl
+          · exact GensLe.of_eq rfl rfl
+        · split
+          · exact GensLe.of_eq rfl rfl
+          · split
+            · exact GensLe.of_eq rfl rfl
+            · exact GensLe.of_eq rfl rfl
+  · unfold commit
+    split
+    · exact GensLe.refl s
+    · split
+      · exact GensLe.refl s
+      · simp only
+        split
+        · split
+          · split
+            · exact gens_fb _ _ rfl rfl
+            · exact GensLe.of_eq rfl rfl
+          · split
+            · exact gens_fo _ _ rfl rfl
+            · exact GensLe.of_eq rfl rfl
+        · split
+          · split
+            · exact GensLe.of_eq rfl rfl
+            · split
+              · exact gens_fo _ _ rfl rfl
+              · exact GensLe.of_eq rfl rfl
+          · split
+            · split
+              · exact gens_fb _ _ rfl rfl
+              · exact GensLe.of_eq rfl rfl
+            · exact GensLe.of_eq rfl rfl
   · unfold forceFailover
     split
-    · exact ⟨Nat.le_refl _, List.prefix_refl _⟩
+    · exact GensLe.refl s
     · split
-      · exact ⟨Nat.le_refl _, List.prefix_refl _⟩
-      · simp only [gens_stopAll]
-        exact ⟨by omega, List.prefix_refl _⟩
+      · exact GensLe.refl s
+      · refine ⟨by simp only; omega, ?_⟩
+        simp only [gens_stopAll]; exact List.prefix_refl _
   · unfold forceFailback
-    split <;> exact ⟨Nat.le_refl _, List.prefix_refl _⟩
+    split <;> exact GensLe.refl s
 
-theorem run_gens (s : State) (ops : List Op) :
-    s.gen ≤ (run s ops).gen ∧ s.timers.map (·.gen) <+: (run s ops).timers.map (·.gen) := by
+theorem run_gens (s : State) (ops : List Op) : GensLe s (run s ops) := by
   induction ops generalizing s with
-  | nil => exact ⟨Nat.le_refl _, List.prefix_refl _⟩
+  | nil => exact GensLe.refl s
   | cons op rest ih =>
     have h1 := step_gens s op
     have h2 := ih (step s op).1
     simp only [run, List.foldl_cons] at h2 ⊢
-    exact ⟨Nat.le_trans h1.1 h2.1, List.IsPrefix.trans h1.2 h2.2⟩
+    exact h1.trans h2
 
 end Bng.Failover
